@@ -452,7 +452,10 @@ ODD = [chr(c) for c in (
     0xFF08, 0xFF09, 0xFF0C, 0xFF0F, 0x201A,          # full-width look-alikes of the delimiters
     0x130, 0xDF, 0xFB01, 0x301,                      # case-folding oddities, combining mark
     0x7B, 0x7D, 0x23, 0x3A, 0x5B, 0x5D, 0x5C, 0x22, 0x27)]
-WORDS = ["Event", "Red", "Sensory-event", "Item/Object", "Def/x", "sc:Red", "Duration/3 s", "a", "B", "{col}", "#"]
+WORDS = ["Event", "Red", "Sensory-event", "Item/Object", "Def/x", "sc:Red", "Duration/3 s", "a", "B", "{col}", "#",
+         # text that is not in Unicode normal form C (a base letter + combining mark that would compose, compatibility signs):
+         # spans and original text refer to the text AS GIVEN
+         "Cafe\u0301", "Label/re\u0301sume\u0301", "\u2126", "5 \u212b", "A\u030a"]
 
 
 def hypothesis_texts(n, sd, maxlen=48):
